@@ -22,6 +22,7 @@ RULE = ('exhaustive enumeration: layer type in {Conv1d, Conv2d, Linear} x every 
         'Non-trivial: at least two patterns registered for the type (order can matter); '
         'distinct = (type, ordered pattern tuple, truth assignment, default).')
 RULE += ('  Round 3: every registration order again with one function object shared by two of the patterns.')
+RULE += ("  Round 4b: every order again with the specification's default function object registered for one pattern.")
 ASSUMPTIONS = ['a "user constraint" is an arbitrary predicate on the layer spec (here: stride == 2)']
 REQUIRED_MONITORS = ['c15.lookup', 'c15.insitu_contract', 'c15.constraint_semantics']
 MIN_NONTRIVIAL = {'quick': 1000, 'thorough': 1000}
